@@ -216,6 +216,15 @@ class Layout:
     def ws(self, allow_empty=True):
         return self.r.choice((['', ''] if allow_empty else []) + [' ', '  ', '\n', ' \n ', '\t'])
 
+    def be_gap(self):
+        """whitespace between \\begin / \\end and the braced name: any amount, line breaks included"""
+        k = self.r.random()
+        if k < 0.88:
+            return ''
+        if k < 0.95:
+            return self.r.choice([' ', '\n', '\t ', '  ', ' \n '])
+        return self.r.choice([' ' * 56, ' ' * 57, ' ' * 64, '\n' + ' ' * 70, '\t' * 130, ' \n' * 40])
+
     def prearg(self, aps, comments_ok=True):
         """filler between a call token / previous argument and the next argument (only the
         expression parser skips comments)"""
@@ -272,10 +281,10 @@ class Layout:
             return it[1] + self.args(self.sig.specials[it[1]], it[2], control_word=False)
         if k == 'env':
             sp = self.sig.env_sig(it[1])
-            head = '\\begin{%s}' % it[1] + self.args(sp, it[2], control_word=False)
+            head = '\\begin%s{%s}' % (self.be_gap(), it[1]) + self.args(sp, it[2], control_word=False)
             if self._ends_with_control_word(head) and it[3] and it[3][0][0] == 'text':
                 head += ' '
-            return head + self.items(it[3], '\\') + '\\end{%s}' % it[1]
+            return head + self.items(it[3], '\\') + '\\end%s{%s}' % (self.be_gap(), it[1])
         if k == 'verbmacro':
             return '\\verb' + it[1] + it[2].replace(it[1], '') + it[1]
         if k == 'verbenv':
